@@ -28,7 +28,7 @@ def run(ctx):
         "results are compared bit-exactly where the code only compares and copies endpoints; Expanded results (float arithmetic) within 1e-13 and by membership of half-step probes",
         "exact ties (positiveDistance, Length, Expanded to exactly full/singleton) are marked by the model and either result is accepted",
         "caps: unit embedding of lattice directions; point membership is predicted for strict inequalities and for axis-aligned / identical points (exact float64 computation); cap-cap relations are predicted in the rational-angle sub-world (radii 0, pi/3, pi/2, 2pi/3, pi; centre distances multiples of pi/12) with strict margins, and for concentric / point caps",
-        "ChordAngle sums are clamped at pi by design: InteriorIntersects of caps with antipodal centres whose radii sum to more than pi is not predicted",
+        "Cap.InteriorIntersects with exactly antipodal axis-aligned centres and radii summing to more than pi (or a full receiver) is predicted true (the interiors overlap); the code answers false because the chord-angle sum is clamped at pi: recorded as a known finding; off-axis antipodal centres are not predicted (the float distance may fall below 4)",
         "s2.Rect.expanded is unexported; it is reached through the add-only hook VerifRectExpanded and through RectFromCenterSize",
         "s2.Rect has no InteriorContains/InteriorIntersects in this tree; Cap.Expanded requires a non-negative distance",
     ]
@@ -45,7 +45,7 @@ def run(ctx):
                       "r2.Rect": "3x3 grid: all 45 valid rectangles (9 empty representations), all pairs, 25 probes"}
     # ---- 2. lat-lng rectangles: seeded first operands x all second operands
     n_rc = 15 * 65 + 1
-    na = 20 if q else 100
+    na = 20 if q else 60
     consts = {"M": 4, "NL": 3, "ML": 2, "NR": 1, "Fams": '{"rc"}',
               "AIdxS1": set(), "AIdxRc": set(rnd.sample(range(1, n_rc + 1), na)) | {1, n_rc},
               "BIdxRc": (set(rnd.sample(range(1, n_rc + 1), 450)) | {1, n_rc}) if q else set(),
@@ -65,15 +65,15 @@ def run(ctx):
     if not q:
         # M = 8 circle (258 intervals): seeded first operands x all second operands; finer line
         consts = {"M": 8, "NL": 4, "ML": 4, "NR": 1, "Fams": '{"s1", "pp", "r1"}',
-                  "AIdxS1": set(rnd.sample(range(1, 259), 100)), "AIdxRc": {1}, "BIdxRc": set(),
+                  "AIdxS1": set(rnd.sample(range(1, 259), 60)), "AIdxRc": {1}, "BIdxRc": set(),
                   "RcMlK": _k([0]), "RcMgK": _k([0])}
         r = ctx.tlc("Gen_Intervals", vlib.cfg(constants=consts, invariants=IV_INV), workers=14, timeout=2400, heap="8g")
         ctx.replay(_cases(r), timeout=1800)
         # finer lat-lng grid, sampled on both sides
         n_rc = 45 * 257 + 1
         consts = {"M": 8, "NL": 3, "ML": 4, "NR": 1, "Fams": '{"rc"}', "AIdxS1": set(),
-                  "AIdxRc": set(rnd.sample(range(1, n_rc + 1), 30)) | {1, n_rc},
-                  "BIdxRc": set(rnd.sample(range(1, n_rc + 1), 400)) | {1, n_rc},
+                  "AIdxRc": set(rnd.sample(range(1, n_rc + 1), 20)) | {1, n_rc},
+                  "BIdxRc": set(rnd.sample(range(1, n_rc + 1), 300)) | {1, n_rc},
                   "RcMlK": _k([-3, -1, 0, 1, 4]), "RcMgK": _k([-8, -3, -1, 0, 1, 3, 8])}
         r = ctx.tlc("Gen_Intervals", vlib.cfg(constants=consts, invariants=IV_INV), workers=14, timeout=2400, heap="8g")
         ctx.replay(_cases(r), timeout=1800)
